@@ -45,4 +45,5 @@ MUTANTS = [
     # ------------------------------------------------------------------ stable hash
     # ------------------------------------------------------------------ interning
     # ------------------------------------------------------------------ lock table
+    # ------------------------------------------------------------------ edge roles outside Snapshot
 ]
